@@ -55,6 +55,8 @@ pub fn model_case(c: &Value, tr: &mut Trace, tmpdir: &str) {
     spec.text = g("text") != "absent";
     spec.dynamic = g("dyn") != "absent";
     if g("soname") == "absent" { spec.soname = None; }
+    // a shift that makes DT_STRTAB, read as a file offset, fall beyond the 0x3000-byte file / into its zero padding
+    spec.vshift = match g("layout").as_str() { "shift_outside" => 0x10_0000, "shift_inside" => 0x2000, _ => 0 };
     let mut b = elfgen::build(&spec);
     let len = b.bytes.len() as u64;
     if g("phdrs") == "pastend" { elfgen::set_field(&mut b, "e_phoff", len - 8); }
